@@ -247,12 +247,12 @@ def run_js(src, opts=None, ctx=None):
     orig_tp = ctx._to_python
     depth = [0]
 
-    def spy(v):
+    def spy(v, *rest):
         if depth[0] == 0:
             raw.append(v)
         depth[0] += 1
         try:
-            return orig_tp(v)
+            return orig_tp(v, *rest)
         finally:
             depth[0] -= 1
     ctx._to_python = spy
